@@ -62,7 +62,10 @@ def oracle_emitted(mode, ctx, case, root, out):
         if not ifs:
             continue
         backends = ["c", "c-skel", "cpp", "cpp-skel", "rust"] + (["java"] if java_ok else [])
-        res = E.emit_all(ctx, case, root, out, backends=backends, file_rel=f["path"])
+        # an included file compiled on its own: the tree root joins the search path (for the
+        # main file its directory, the root, is appended by the compiler itself)
+        sub = dict(case, incdirs=case.get("incdirs", []) + ["."]) if f["path"] != case["main"] else case
+        res = E.emit_all(ctx, sub, root, out, backends=backends, file_rel=f["path"])
         stem = os.path.splitext(os.path.basename(f["path"]))[0]
         for b, (rc, files, err) in res.items():
             if rc != 0:
@@ -108,12 +111,14 @@ def oracle_emitted(mode, ctx, case, root, out):
                         bad.append({"where": "java", "iface": I, "expected": exp, "got": g})
             else:
                 flat = {n: v for (_, n), v in ee.items()}
+                # int32 constants are emitted with the same INT32_C(...) wrapper as errors
+                const_names = {m["name"] for lvl in idl.chain(case, I) for m in lvl["members"] if m["k"] == "const"}
                 if res["c"][0] == 0:
-                    g = {k[1]: v for k, v in X.c_errors(res["c"][1][stem + ".h"], ifnames).items() if k[0] == I}
+                    g = {k[1]: v for k, v in X.c_errors(res["c"][1][stem + ".h"], ifnames).items() if k[0] == I and k[1] not in const_names}
                     if g != flat:
                         bad.append({"where": "c", "iface": I, "expected": flat, "got": g})
                 if res["cpp"][0] == 0:
-                    g = {k[1]: v for k, v in X.cpp_errors(res["cpp"][1][stem + ".hpp"]).items() if k[0] == I}
+                    g = {k[1]: v for k, v in X.cpp_errors(res["cpp"][1][stem + ".hpp"]).items() if k[0] == I and k[1] not in const_names}
                     if g != flat:
                         bad.append({"where": "cpp", "iface": I, "expected": flat, "got": g})
                 if res["rust"][0] == 0:
